@@ -259,6 +259,28 @@ Definition route_write (strat : strategy) (H : hashes) (order : list node) (st :
   : state * outcome node :=
   route_write_gen no_interf ROUTE_FUEL 0 strat H order st s.
 
+(* what another task does to the registry while one route_write is between its assignment and
+   its lookup (the harness injects exactly this at the pause point
+   "cluster.route_write.after_assign"): per attempt a list of registry mutations; the list of
+   attempts is used cyclically *)
+Inductive regop :=
+| RStatus (n : node) (stt : nstatus)
+| RLoad (n : node) (load : N)
+| RRemove (n : node).
+
+Definition apply_regop (r : registry) (o : regop) : registry :=
+  match o with
+  | RStatus n stt => reg_update n (set_status stt) r
+  | RLoad n l => reg_update n (set_load l) r
+  | RRemove n => adel N.eqb n r
+  end.
+
+Definition interf_of (specs : list (list regop)) (attempt : N) (r : registry) : registry :=
+  match specs with
+  | [] => r
+  | _ => fold_left apply_regop (nth (Nat.modulo (N.to_nat attempt) (length specs)) specs []) r
+  end.
+
 (* ----------------------------------------------------------------- history *)
 Inductive op :=
 | ORegister (n : node) (ty : ntype) (stt : nstatus) (load : N)   (* register_node(NodeInfo{..}) *)
@@ -268,7 +290,8 @@ Inductive op :=
 | OLoad (n : node) (load : N)
 | ORemove (n : node)
 | ORebalance (order : list node)
-| ORoute (s : shard) (order : list node).
+| ORoute (s : shard) (order : list node)
+| ORouteI (s : shard) (order : list node) (specs : list (list regop)).  (* route_write with interference *)
 
 Inductive result :=
 | RUnit
@@ -292,6 +315,8 @@ Definition step (strat : strategy) (H : hashes) (st : state) (o : op) : state * 
   | ORemove n => (with_reg st (adel N.eqb n (st_reg st)), RUnit)
   | ORebalance order => let (st', m) := rebalance H order st in (st', RMoves m)
   | ORoute s order => let (st', r) := route_write strat H order st s in (st', RRoute r)
+  | ORouteI s order specs =>
+      let (st', r) := route_write_gen (interf_of specs) ROUTE_FUEL 0 strat H order st s in (st', RRoute r)
   end.
 
 Definition run_from (strat : strategy) (H : hashes) (st : state) (h : list op) : state :=
